@@ -57,9 +57,27 @@ def main(argv):
             runs = int(next(it))
         elif a == '--seeded':
             seeded = True
+        elif a == '--neutral':
+            sel.append(a)
         else:
             sel.append(a)
     patches = sorted(glob.glob(os.path.join(VERIF, 'selftest', 'mutants', '*.patch')))
+    if '--neutral' in argv:
+        # changes under which the property still holds (e.g. a correct lock around shared state): every
+        # check must stay quiet and must not hang
+        sel = [a for a in sel if a != '--neutral']
+        bad = 0
+        for p in sorted(glob.glob(os.path.join(VERIF, 'selftest', 'neutral', '*.patch'))):
+            name = os.path.basename(p)[:-6]
+            status, info = run_one(p, _prop_of(name), runs)
+            ok = status == 'missed'
+            print('%-56s %-4s %s' % (name, _prop_of(name), 'quiet' if ok else 'FALSE ALARM / ' + status))
+            if not ok:
+                bad += 1
+                print('    ' + info.replace('\n', '\n    ')[:1500])
+            sys.stdout.flush()
+        print('neutral changes: %d not quiet' % bad)
+        return 0 if bad == 0 else 1
     if seeded:
         patches = sorted(glob.glob(os.path.join(VERIF, 'seeded', '*', 'patch.diff')))
     bad = 0
